@@ -78,6 +78,7 @@ class ModelClient:
     def flush(self):
         if not self.queue:
             return
+        _late()
         reqs = [dict(payload, op=op) for op, payload, _, _, _, _ in self.queue]
         resp = self.run_requests(reqs)
         for (op, payload, expect, inp, suite, cmp), r in zip(self.queue, resp):
@@ -106,3 +107,8 @@ def cmp_rdfs(expect, r):
 
 
 COMPARATORS = {"rdfs": cmp_rdfs}
+
+
+def _late():
+    import wire
+    COMPARATORS.update({"prune": wire.cmp_prune, "reach": wire.cmp_reach, "solve": wire.cmp_solve})
